@@ -253,8 +253,18 @@ func c06(w *core.World, r *core.Report) {
 	}
 
 	// ---- ARMED-OR-RELEASED
-	r.Rule("ARMED-OR-RELEASED", 5, "never-wedge, structural part: in TransactionSet (a) a failed RegisterTransaction returns without waiting (no CFG cycle contains the call), (b) 'defer guard.Done()' is the first call on the success edge of RegisterTransaction, (c) guard.Success() — which keeps the transaction registered — executes only on the true outcome of Transaction.IsRollbackTimerRunning() of the registered transaction and on the err==nil outcome of lowlevelTransactionSet, (d) IsRollbackTimerRunning / TransactionCancelTimer.IsRunning report 'done != nil' under doneMutex, (e) the guard's cleanup closure reaches CleanupTransaction and Done() invokes it. Decides: every return of TransactionSet either leaves a running rollback timer or unregisters the transaction.")
+	r.Rule("ARMED-OR-RELEASED", 5, "never-wedge, structural part: in TransactionSet (a) a failed RegisterTransaction returns without waiting (no CFG cycle contains the call), (b) 'defer guard.Done()' is the first call on the success edge of RegisterTransaction, (c) guard.Success() — which keeps the transaction registered — executes only on the true outcome of Transaction.IsRollbackTimerRunning() of the registered transaction and on the err==nil outcome of lowlevelTransactionSet, (d) IsRollbackTimerRunning / TransactionCancelTimer.IsRunning report 'done != nil' under doneMutex, (e) the guard's cleanup closure reaches CleanupTransaction and Done() invokes it, (f) no method of package datastore/types writes a field of a value receiver (Success() must change the guard Done() reads). Decides: every return of TransactionSet either leaves a running rollback timer or unregisters the transaction.")
 	armedOrReleased(w, r, txset, register)
+	// (f) what Success() changes is what Done() looks at: a method of package datastore/types that writes a field of
+	// its receiver has a pointer receiver (with a value receiver the write goes to the method's own copy)
+	for _, f := range w.RepoFns {
+		if f.Pkg == nil || f.Pkg.Pkg.Path() != core.Module+"/pkg/datastore/types" || f.Parent() != nil {
+			continue
+		}
+		for _, st := range lostReceiverWrites(f) {
+			r.Viol("ARMED-OR-RELEASED", core.Site(f, "write to a field of a value receiver"), w.InstrPos(st), "the method changes its own copy of the receiver: the change (guard.Success() disarming the cleanup) is lost, so the cleanup always runs and a successfully applied transaction is unregistered while its rollback timer is armed")
+		}
+	}
 
 	// ---- SLOT-CLEARED-ON-EXPIRY
 	r.Rule("SLOT-CLEARED-ON-EXPIRY", 1, "in every TransactionManager method reachable from the timer callback (Transaction.rollback) that calls RollbackInterface.TransactionRollback, every path from that call to a function exit clears the transaction slot (store nil, or CleanupTransaction) — whatever the rollback returned. Decides: after the timeout the datastore accepts a new transaction even if the automatic rollback failed.")
